@@ -8,6 +8,7 @@ Ghost logs: `taken` (requests taken from requestors, as tagged), `handed` (accep
 `lost`, `repTaken` (replies taken from repliers), `routed` (what became of each reply).
 -/
 import SeliumModel.Lemmas.ReqRepMore
+import SeliumModel.Lemmas.ReqRepWf
 
 namespace Selium.Route
 open Selium.Sink
@@ -92,6 +93,82 @@ theorem c02_bad_tag_discarded (f : RFrame) (es : List (Child RFrame)) (why : Str
     (h : (routerSend f es).1 = .discarded why) : (routerSend f es).2.1 = es ∧ (routerSend f es).2.2 = [] :=
   routerSend_discarded f es why h
 
+/-- every routing step recorded as delivered to `cid` was a message tagged `cid`, handed over with the tag stripped -/
+theorem c02_routed_wf (history : List REvent) : RouteWf (rrExec history) :=
+  rrExec_inv RouteWf (by intro x hx; simp at hx) rrPoll_wf
+    (fun s t h _ _ _ _ h1 _ _ _ _ _ _ => routeWf_of_eq h h1) history
+
+/-- End to end across the router, for a replier that answers with the headers of the request it answers (the library
+    replier does: `c04_replier_answers_in_order_with_request_headers`): whatever a connected requestor's sink was
+    handed is the answer to a request that was taken from that very requestor's stream — the frame's headers are that
+    request's headers (as tagged by the router) with the tag stripped. In every history, for every schedule, however
+    many requestors there are and whatever `cid` headers they forge. -/
+theorem c02_honest_replies_reach_the_requestor_they_answer (history : List REvent)
+    (honest : ∀ f ∈ (rrExec history).repTaken, ∃ x ∈ (rrExec history).handed, ∃ hd p r,
+        x.2 = .msg (some hd) p ∧ f = .msg (some hd) r) :
+    ∀ k ∈ (rrExec history).sinks, ∀ g ∈ k.got,
+      ∃ h p r, (k.id, tagRequest k.id h p) ∈ (rrExec history).taken ∧
+        g = stripCid ((h.getD []).set CID (toString k.id)) r := by
+  intro k hk g hg
+  have hrep := c02_replies_none_lost_each_to_its_requestor history
+  have hreq := c02_requests_at_most_once_in_order history
+  have htag := c02_origin_tag history
+  have hwf := c02_routed_wf history
+  -- `g` was delivered by some routing step addressed to `k.id`
+  rw [hrep.2 k hk] at hg
+  obtain ⟨x, hx, hdel⟩ := List.mem_filterMap.1 hg
+  have hx2 : x.2 = .delivered k.id g := by
+    unfold deliveredTo at hdel
+    cases hr : x.2 with
+    | delivered cid g' =>
+      simp only [hr] at hdel
+      by_cases hc : cid = k.id
+      · simp only [hc, if_true, Option.some.injEq] at hdel; rw [hc, hdel]
+      · simp [hc] at hdel
+    | refused cid g' => simp [hr] at hdel
+    | discarded w => simp [hr] at hdel
+  obtain ⟨hd, pr, v, hx1, hget, hparse, hstrip⟩ := hwf x hx k.id g hx2
+  -- that reply was taken from the replier, which echoed the headers of a request it had been handed
+  have hmem : x.1 ∈ (rrExec history).repTaken := by
+    rw [← hrep.1]; exact List.mem_append_left _ (List.mem_map.2 ⟨x, hx, rfl⟩)
+  obtain ⟨y, hy, hd', p', r', hy2, hf⟩ := honest x.1 hmem
+  rw [hx1] at hf
+  have hhd : hd = hd' := by injection hf with h1 _; exact Option.some.inj h1
+  have hr' : pr = r' := by injection hf
+  subst hhd
+  -- the request it had been handed was taken from some requestor's stream and tagged with that requestor's id
+  have hin : y.2 ∈ (rrExec history).taken.map (·.2) :=
+    hreq.1.subset (List.mem_append_left _ (List.mem_map.2 ⟨y, hy, rfl⟩))
+  obtain ⟨z, hz, hz2⟩ := List.mem_map.1 hin
+  obtain ⟨h0, p0, hz3, _⟩ := htag z hz
+  rw [hy2] at hz2
+  rw [hz3] at hz2
+  simp only [tagRequest, RFrame.msg.injEq, Option.some.injEq] at hz2
+  -- … and the tag names this requestor
+  have hv : v = toString z.1 := by
+    have := hdr_get_set (h0.getD []) CID (toString z.1)
+    rw [hz2.1] at this
+    rw [hget] at this
+    exact Option.some.inj this
+  rw [hv] at hparse
+  have hid : k.id = z.1 := parseUsize_toString_some z.1 k.id hparse
+  refine ⟨h0, p0, pr, ?_, ?_⟩
+  · rw [hid]
+    have : z = (z.1, tagRequest z.1 h0 p0) := by rw [← hz3]
+    rw [← this]; exact hz
+  · rw [hstrip, ← hz2.1, hid]
+
+/-- an honest history: two requestors (the second forges `cid=0`), the replier echoes each request's headers -/
+def exHonest : List REvent :=
+  [.enqueue (.client { id := 0 } [.item (.msg none 1), .pending]),
+   .enqueue (.client { id := 0 } [.item (.msg (some [("cid", "0"), ("req_id", "7")]) 2), .pending]),
+   .enqueue (.server { id := 0 } [.pending, .item (.msg (some [("cid", "1"), ("req_id", "7")]) 20), .item (.msg (some [("cid", "0")]) 10), .pending]),
+   .poll 60 [] [], .poll 60 [] [], .poll 60 [] []]
+
+example : (rrExec exHonest).handed.map (·.2) = [.msg (some [("cid", "0")]) 1, .msg (some [("cid", "1"), ("req_id", "7")]) 2] ∧
+    (rrExec exHonest).repTaken = [.msg (some [("cid", "1"), ("req_id", "7")]) 20, .msg (some [("cid", "0")]) 10] ∧
+    (rrExec exHonest).sinks.map (·.got) = [[.msg none 10], [.msg (some [("req_id", "7")]) 20]] := by decide +kernel
+
 /-! Non-vacuity: the schedule on which the unrepaired router lost a reply — requestor sink not ready once,
     two replies waiting — now delivers both, in order, tag stripped. -/
 def exRR : List REvent :=
@@ -113,3 +190,5 @@ end Selium.Route
 #print axioms Selium.Route.c02_replies_none_lost_each_to_its_requestor
 #print axioms Selium.Route.c02_reply_delivery
 #print axioms Selium.Route.c02_bad_tag_discarded
+#print axioms Selium.Route.c02_routed_wf
+#print axioms Selium.Route.c02_honest_replies_reach_the_requestor_they_answer
